@@ -224,8 +224,8 @@ PRIO = P + 'prioritize::Prioritize'
 IFD = P + 'prioritize::InFlightData'
 
 
-def r3_flush_handover(ctx):
-    r = ctx.rule('C20.R3', 'GUARD', 'the unlocked flush hand-over: in-flight DATA marker written at buffer time, consumed at reclaim, dropped on clear_queue; flush outside every lock')
+def r3_flush_handover(ctx, rid='C20.R3'):
+    r = ctx.rule(rid, 'GUARD', 'the unlocked flush hand-over: in-flight DATA marker written at buffer time, consumed at reclaim, dropped on clear_queue; flush outside every lock')
     F = ctx.facts
     # writers of Prioritize.in_flight_data_frame by variant
     writers = {}
